@@ -515,12 +515,19 @@ class kMinPathError(pathmodel.AbstractPathModelDAG):
 
             # Getting the right error scale factor depending on the path length
             # if path_length_vars[(i)] in [ranges[i][0], ranges[i][1]] then slack_factors_vars[(i)] = constants[i].
+            # With given weights some paths may stay empty (not every weight has to be used); an empty path has length 0,
+            # which must fall into some range as well (its factor is irrelevant: it goes through no edge)
+            ranges_with_empty_path = list(self.path_length_ranges)
+            factors_with_empty_path = list(self.path_length_factors)
+            if not any(r[0] <= 0 <= r[1] for r in ranges_with_empty_path):
+                ranges_with_empty_path.append((0, 0))
+                factors_with_empty_path.append(self.path_length_factors[0])
             for i in range(self.k):
                 self.solver.add_piecewise_constant_constraint(
                     x=self.path_length_vars[(i)], 
                     y=self.slack_factors_vars[(i)],
-                    ranges = self.path_length_ranges, 
-                    constants = self.path_length_factors,
+                    ranges = ranges_with_empty_path, 
+                    constants = factors_with_empty_path,
                     name_prefix=f"error_scale_{i}"
                 )
 
